@@ -34,7 +34,7 @@ CORPORA = {
              subj="unrelated topic", bcc="hidden@example.com", body="A much longer body " + "x" * 300 + "\r\nswimming pool\r\n"),
         dict(cid="s4", flags="", day=12, sent=None, frm="eve@example.com", to="alice@example.com", subj="", body="no date header here\r\n"),
         dict(cid="s5", flags="\\Seen kwone kwtwo", day=13, sent="Sat, 13 Jan 2024 08:00:00 -0800", frm="=?utf-8?q?Fr=C3=A9d?= <fred@example.com>", to="bob@example.org",
-             subj="Swim meet", body="SWIM swam swum\r\n", xhdr="X-Custom: Some Value"),
+             subj="Swim meet", body="SWIM swam swum\r\n", xhdr="X-Custom: Some Value", xhdr2="X-Custom: Other Thing"),
     ],
 }
 CORPORA["c2"] = [dict(m, flags=f) for m, f in zip(CORPORA["c1"], ["", "\\Seen", "\\Seen \\Flagged \\Answered \\Deleted \\Draft kwone", "kwtwo", "\\Deleted"])]
@@ -51,6 +51,8 @@ def make_msg(m):
         hdr += f"Bcc: {m['bcc']}\r\n"
     if m.get("xhdr"):
         hdr += m["xhdr"] + "\r\n"
+    if m.get("xhdr2"):  # the same field a second time
+        hdr += m["xhdr2"] + "\r\n"
     return (hdr + "\r\n" + m["body"]).encode("utf-8")
 
 
@@ -84,7 +86,7 @@ def atoms(facts):
     A += [("BEFORE", "1-Jan-2020"), ("SINCE", "1-Jan-2030"), ("ON", "29-Feb-2024")]
     A += [("FROM", "alice"), ("FROM", "ALICE"), ("FROM", "example.com"), ("FROM", "nobody"), ("TO", "bob@example.org"), ("TO", "list"), ("CC", "carol"),
           ("CC", "x"), ("BCC", "hidden"), ("SUBJECT", "report"), ("SUBJECT", "REPORT"), ("SUBJECT", "quarterly report"), ("SUBJECT", "zzz"),
-          ("HEADER", "X-Custom", "some"), ("HEADER", "x-custom", ""), ("HEADER", "Message-ID", "s3"), ("HEADER", "Date", "2024"), ("HEADER", "Nosuch", ""),
+          ("HEADER", "X-Custom", "some"), ("HEADER", "X-Custom", "other thing"), ("HEADER", "x-custom", ""), ("HEADER", "Message-ID", "s3"), ("HEADER", "Date", "2024"), ("HEADER", "Nosuch", ""),
           ("HEADER", "X-Empty", ""), ("HEADER", "x-empty", "x"), ("HEADER", "Cc", ""), ("HEADER", "Bcc", ""), ("SUBJECT", ""), ("CC", ""),
           ("BODY", "swim"), ("BODY", "Regards"), ("BODY", "report"), ("BODY", "cid="), ("TEXT", "swim"), ("TEXT", "example.org"), ("TEXT", "zzzz")]
     uids = [f["uid"] for f in facts]
@@ -141,6 +143,9 @@ def get_facts(s, corpus):
         if m.get("xhdr"):
             k, _, v = m["xhdr"].partition(":")
             hdrs[k.lower()] = [v.strip()]  # (a field may be present with an empty value)
+        if m.get("xhdr2"):
+            k, _, v = m["xhdr2"].partition(":")
+            hdrs.setdefault(k.lower(), []).append(v.strip())
         if m["frm"].startswith("=?"):
             hdrs["from"] = ["Fréd <fred@example.com>", m["frm"]]
         f["headers"] = hdrs
